@@ -186,8 +186,8 @@ func runOnceWide(sc onceWide) (what string, checks int) {
 		}
 		get(0)
 		synctest.Wait()
-		var waiter atomic.Pointer[obj]
-		var waiterBack atomic.Bool
+		var waiter, lateWaiter atomic.Pointer[obj]
+		var waiterBack, lateBack atomic.Bool
 		if sc.Mode != 1 {
 			// a second caller of key 0 that waits for the construction in progress
 			go func() { waiter.Store(oc.Get(0)); waiterBack.Store(true) }()
@@ -208,11 +208,18 @@ func runOnceWide(sc onceWide) (what string, checks int) {
 					}
 				}
 			}
-			if (ret[0].Load() || waiterBack.Load()) && what == "" {
-				what = "a caller of key 0 returned although its construction has not finished"
+			// one more caller of key 0, arriving after all the other keys have been asked for (and, in mode 0, built)
+			go func() { lateWaiter.Store(oc.Get(0)); lateBack.Store(true) }()
+			synctest.Wait()
+			checks++
+			if (ret[0].Load() || waiterBack.Load() || lateBack.Load()) && what == "" {
+				what = fmt.Sprintf("a caller of key 0 returned although its construction has not finished (first caller %v, waiting caller %v, caller that arrived after %d other keys %v: it holds %+v)", ret[0].Load(), waiterBack.Load(), sc.Others, lateBack.Load(), lateWaiter.Load())
 			}
 			close(gate)
 			synctest.Wait()
+			if what == "" && (!lateBack.Load() || lateWaiter.Load() != res[0].Load()) {
+				what = fmt.Sprintf("the caller of key 0 that arrived after %d other keys holds %+v (returned: %v), the constructing caller %+v", sc.Others, lateWaiter.Load(), lateBack.Load(), res[0].Load())
+			}
 		}
 		for k := 0; k <= sc.Others && what == ""; k++ {
 			checks += 2
@@ -383,7 +390,7 @@ func TestOnceBubble(t *testing.T) {
 	// many keys at once
 	var wides []onceWide
 	for mode := 0; mode <= 2; mode++ {
-		for _, others := range []int{1, 7, 8, 15, 16, 17, 31, 32, 33, 63, 64, 65, 70, 130, 300, 1100} {
+		for _, others := range []int{1, 7, 8, 15, 16, 17, 31, 32, 33, 63, 64, 65, 70, 130, 300, 1023, 1024, 1025, 1100, 2050, 4100} {
 			wides = append(wides, onceWide{Mode: mode, Others: others})
 		}
 	}
